@@ -54,7 +54,9 @@ func varName(vr *types.Var, suffix string) string {
 		"string", "bool", "byte", "rune", "uintptr",
 		"int", "int8", "int16", "int32", "int64",
 		"uint", "uint8", "uint16", "uint32", "uint64",
-		"float32", "float64", "complex64", "complex128":
+		"float32", "float64", "complex64", "complex128",
+		// avoid shadowing predeclared identifiers the generated code relies on
+		"error", "any", "nil", "append", "panic":
 		name += "MoqParam"
 	}
 
